@@ -6,7 +6,7 @@ started before Connect, before the first message and during negotiation, for 1.0
 run on the real Client (harness/llrp/client_script_test.go) and on the extracted model; the property
 is evaluated directly on Go's observations (bytes the peer saw, Write calls the client made, order of
 frames, callers' results) with the codec model as the reference reader of the first message."""
-import json, random
+import json, random, re
 import vlib
 import client_common as cc
 import client_c0809 as cx
@@ -151,7 +151,7 @@ def tail(b, rnd, good, plan=None, early_at=()):
     return outcome
 
 
-def gen_scripts(seed, thorough):
+def gen_scripts(seed, thorough, seed_round=0):
     rnd = random.Random(seed)
     out = []
 
@@ -212,6 +212,37 @@ def gen_scripts(seed, thorough):
             ref = cx.ref_decode_ren([payload])[0]
             tail(b, rnd, ref == "c 0", plan=rnd.choice(NEG_PLANS[:5]))
             add(b, "payload")
+    # G. ONE nested length / truncation corruption of an otherwise well-formed first message, at every nesting level (message
+    #    length = every prefix; ReaderEventNotificationData and each sub-parameter: TLV length 0 .. true+2, with only the length
+    #    field changed and with body + enclosing lengths re-adjusted), optional leading / following events present or absent.
+    #    Judge = the codec model: what it rejects (or reads as anything but ConnectionAttemptEvent Success) must make Connect fail.
+    bases = [("plain", cx.ren_tree()), ("uptime", cx.ren_tree(stamp=129)), ("hop", cx.ren_tree(leading=[cx.N_HOPPING])),
+             ("close", cx.ren_tree(followers=[cx.N_CLOSE])), ("both", cx.ren_tree(leading=[cx.N_ANTENNA], followers=[cx.N_CLOSE])),
+             ("failed", cx.ren_tree(status=2))]
+    cases, seen_pl = [], set()
+    for bname, tree in bases:
+        for label, payload in cx.corruptions(tree):
+            if payload in seen_pl:
+                continue
+            seen_pl.add(payload)
+            cases.append((bname, label, payload))
+    refs = cx.ref_decode_ren([c[2] for c in cases])          # one oracle call
+    for k, ((bname, label, payload), ref) in enumerate(zip(cases, refs)):
+        if not thorough and seed_round and k % 2 != seed_round % 2:
+            continue
+        version = 1 + (k % 2)
+        b = B("c08-nested-%s-%s-v%d" % (bname, label, version), version)
+        b.start(first=dict(typ=cx.T_REN, id=0, pl=cx.raw(payload)))
+        m = re.search(r"-len(\d+)-of-(\d+)-resized$", label)
+        if m and int(m.group(1)) > int(m.group(2)) and ref != "c 0":
+            # a parameter declared LONGER than its fields, zero-padded, every enclosing length consistent: the codec model rejects
+            # it (fixed-size parameter), a decoder that reads the fields and skips the padding reads the base message. Both are
+            # allowed (DESIGN 7: leniency is not judged); what is demanded is that Connect proceeds only if the base says Success.
+            tail(b, rnd, bname != "failed", plan=NEG_PLANS[k % 5])
+            add(b, "nested-corruption", nocompare=True, lenient=dict(base_good=(bname != "failed")))
+        else:
+            tail(b, rnd, ref == "c 0", plan=NEG_PLANS[k % 5])
+            add(b, "nested-corruption")
     # D. oversized claims (header only is sent), the limit itself with a type that is not decoded, unparsable length fields
     for version in (1, 2):
         for lf in (10 + cx.MAXBUF + 1, 10 + cx.MAXBUF + 12345, 1 << 31, (1 << 32) - 1):
@@ -347,7 +378,7 @@ def run(tier, seed, replay=None):
     else:
         scripts = gen_scripts(seed, thorough)
         for k in range(1, 4 if thorough else 2):      # the same families with other random choices (ids, sizes, APIs, handlers, plans)
-            more = gen_scripts(seed + 17 * k, thorough)
+            more = gen_scripts(seed + 17 * k, thorough, seed_round=k)
             for sc in more:
                 sc["id"] += "-r%d" % k
             scripts += more
@@ -368,7 +399,7 @@ def run(tier, seed, replay=None):
             g, _ = cc.run_go(exe, [sc], shards=1)
             if not g or not g[0]:
                 return False
-            cl = cx.classify_first([sc])[0]
+            cl = lenient_class(sc, g[0]) if sc.get("lenient") else cx.classify_first([sc])[0]
             return any(s == sig for s, _ in cx.pred_c08(sc, g[0], cl))
         return f
 
@@ -389,12 +420,15 @@ def run(tier, seed, replay=None):
             samples.append(dict(script=s["id"], first=cl, steps=[st["op"] for st in s["steps"]],
                                 go=[(o.get("st") or o.get("res")) for o in g.get("obs", [])],
                                 callers=(g.get("final") or {}).get("callers")))
+        if s.get("lenient"):
+            cl = lenient_class(s, g)
+            classes[i] = cl
         bad = cx.pred_c08(s, g, cl)
         for sig, text in bad:
             if sig in reported:
                 continue
             reported.add(sig)
-            small = cc.shrink(s, go_fails(sig)) if not replay else s
+            small = cc.shrink(s, go_fails(sig)) if not (replay or s.get("lenient")) else s
             res.violation(sig, "%s [script %s; first message: %s; %d steps after shrinking]" % (text, s["id"], cl["cls"], len(small["steps"])),
                           dict(kind="script", script=small, first_message=cl, observed=g if small is s else None,
                                theorem="C08_connect_ok_iff_conn_success / C08_nothing_written_before_ok / C08_early_requests_after_negotiation"))
@@ -559,3 +593,12 @@ def judge_timed(rq, o):
         elif r == "blocked":
             bad.append(("caller-blocked-after-failed-setup", "caller '%s' is still blocked after setup timed out on %s" % (name, msg)))
     return bad
+
+
+def lenient_class(script, go):
+    """over-long zero-padded parameter: if the client went on, it must be because the base message says Success"""
+    st = ((go.get("final") or {}).get("state") or {})
+    proceeded = bool(st.get("wcalls", 0)) or (st.get("ready") and not st.get("closed"))
+    if proceeded:
+        return dict(good=True if script["lenient"]["base_good"] else False, cls="overlong-padded-parameter-read-as-its-base")
+    return dict(good=False, cls="overlong-padded-parameter-rejected")
